@@ -122,7 +122,7 @@ func checkC29(r *mon.Run) {
 	n := r.Pick(80, 800)
 	runWorkload(r, n, func(c *call) { judgeCallC29(r, c) })
 	r.Extra("topologies", n)
-	r.Require(int64(r.Pick(15000, 200000)), 25, "demanded_all", "demanded_dedup", "found", "ref_duplicate_construction",
+	r.Require(int64(r.Pick(15000, 200000)), 25, "combine_on_shared_slices_after_earlier_lookups", "demanded_all", "demanded_dedup", "found", "ref_duplicate_construction",
 		"ref_not_demanded_two_visits", "no_join_exists_and_none_returned")
 	r.RequireClasses(
 		"UD/shortcut/hops=3-4/multi", "UD/peer/hops=3-4/multi", "UD/peer-direct/hops=2/multi", "UD/core/hops=3-4/multi",
